@@ -75,6 +75,17 @@ pub fn make_stream(c: &Corpus, r: &mut Rng, compressed: bool, target: usize, sma
                 }
             },
             3 => s.extend(if compressed { [1u8, 3, 0, 0] } else { [4u8, 3, 0, 0] }), // keep-alive
+            4 if !small_frames && r.chance(1, 12) => {
+                // a long run of well-framed packets the library cannot decode (a newer peer): one error each, and the
+                // stream goes on - however many there are in a row
+                for _ in 0..16 + r.usize_below(30) {
+                    let n = 4 * (1 + r.usize_below(3));
+                    let mut f = r.bytes(n);
+                    f[0] = if compressed { (n / 4) as u8 } else { n as u8 };
+                    f[1] = 70 + r.below(150) as u8;
+                    s.extend(f);
+                }
+            },
             _ => {
                 let lay = r.pick(c.kinds());
                 let o = GenOpts { text: if r.chance(1, 3) { TextMode::Mixed } else { TextMode::Ascii }, max_list: Some(if small_frames { 1 } else { 12 }), boundary: 4, hostile: false };
